@@ -24,6 +24,23 @@ def gen(prop, props=None, **kw):
     return d
 
 
+LEAF = {
+    "name": "LEAF_BYTES", "backend": "kani", "crate": "leaf",
+    "raw": ["trait:IsZero", "impl:IsZero for [u8]", "fn:byte_xor"],
+    "prepend": "use subtle::Choice;",
+    "harnesses": {
+        "is_zero_n0": {"group": "is_zero", "function": "<[u8] as IsZero>::is_zero", "repo_location": "src/helpers.rs", "obligation": "is_zero() <=> all bytes zero, no panic/overflow, N = 0"},
+        "is_zero_n1": {"group": "is_zero", "function": "<[u8] as IsZero>::is_zero", "repo_location": "src/helpers.rs", "obligation": "is_zero() <=> all bytes zero, no panic/overflow, N = 1 (all 256 values of the byte-OR)"},
+        "is_zero_n2": {"group": "is_zero", "function": "<[u8] as IsZero>::is_zero", "repo_location": "src/helpers.rs", "obligation": "is_zero() <=> all bytes zero, no panic/overflow, N = 2"},
+        "is_zero_n32": {"group": "is_zero", "function": "<[u8] as IsZero>::is_zero", "repo_location": "src/helpers.rs", "obligation": "is_zero() <=> all bytes zero, no panic/overflow, N = 32 (secret keys, challenges)"},
+        "is_zero_n33": {"group": "is_zero", "function": "<[u8] as IsZero>::is_zero", "repo_location": "src/helpers.rs", "obligation": "is_zero() <=> all bytes zero, no panic/overflow, N = 33"},
+        "byte_xor_n0": {"group": "byte_xor", "function": "byte_xor", "repo_location": "src/helpers.rs", "obligation": "byte_xor: element-wise xor of equal-length inputs, N = 0"},
+        "byte_xor_n4": {"group": "byte_xor", "function": "byte_xor", "repo_location": "src/helpers.rs", "obligation": "byte_xor: element-wise xor of equal-length inputs, N = 4", "complete": False},
+    },
+    "bound_note": "is_zero: complete at the array sizes the library uses (0,1,2,32,33; unwind N+1 with unwinding assertions); byte_xor at N=4 is a BOUNDED stand-in (the unbounded contract is proved by Verus in unit GENERIC)",
+    "trusted": ["Kani 0.68 / CBMC 6.11 and the `subtle` crate's Choice"],
+}
+
 PROPS = {
     "C01": {
         "units": [gen("C01"), {"name": "IMPL", "backend": "verus", "props": ["C01_impl.rs"], "tags": ["C01"], "specs": "contracts_impl", "prelude": "impl"}],
@@ -73,11 +90,32 @@ PROPS = {
         "hypotheses": [X_NONID, "X-DSEP (explicit): hashing under two distinct tags gives two distinct points"],
     },
     "C10": {
+        "safety": True,
         "units": [gen("C10")],
         "trusted_base": TB_ALGEBRA + ["A-TIME: SystemTime/Duration are integers; now() is arbitrary but not before the epoch; duration_since is Err exactly when the argument is later",
                                       "BlsSignatureProof::compute_y is NOT verified (mutable sub-slice copies are outside the Verus subset): its contract res == H(enc(u) || le64(t), SALT) is assumed"],
         "hypotheses": [X_NONID, "X-LIN: the response point v = -(x'+y)*sig is not the identity (x'+y != 0)", "X-RO: another timestamp gives another derived challenge"],
         "not_decided": ["'rejected once the timeout has elapsed' is proved as: Ok implies the equation for the derived challenge, and the elapsed-time comparison is part of the verified body; the wall clock itself is an arbitrary value"],
+    },
+    "C15": {
+        "units": [LEAF, gen("C15", props=["lib_bytes.rs", "C15.rs"])],
+        "trusted_base": TB_ALGEBRA + ["A-ENC / scalar_le: to_repr/from_repr are inverse on canonical encodings; the all-zero encoding is exactly the zero scalar",
+                                      "L-SERDE: serde derive expansions, serde_bare, serde_json, hex and the curve crates' (de)serializers are NOT verified"],
+        "hypotheses": [],
+        "not_decided": ["serde_bare and serde_json round trips of every type (derive expansions are outside both verifiers)", "types whose byte form is produced by serde_bare (Signature, AggregateSignature, MultiSignature, ProofCommitment, ProofOfKnowledge*, shares, ciphertexts)"],
+    },
+    "C16": {
+        "units": [LEAF, gen("C16", props=["lib_bytes.rs", "C16.rs"])],
+        "trusted_base": TB_ALGEBRA + ["A-ENC: from_bytes (checked decoder) is Some exactly for the encoding of a subgroup point", "L-SERDE (see C15)"],
+        "hypotheses": [],
+        "not_decided": ["serde-derived decoders and the curve crates' parsers (truncation handling of serde_bare, JSON)"],
+    },
+    "C17": {
+        "safety": True,
+        "units": [LEAF, gen("C17", props=["lib_bytes.rs", "C17.rs"])],
+        "trusted_base": TB_ALGEBRA + ["A-TIME (see C10)", "L-SERDE: serde / serde_bare / serde_json decoders and the curve crates' parsers are not verified"],
+        "hypotheses": [],
+        "not_decided": ["serde-derived decoders (serde_bare / serde_json) and the curve crates' own parsers", "termination of the two probabilistic retry loops (zero scalar re-draw)"],
     },
 }
 
